@@ -15,4 +15,5 @@ let lookup (p : string) : Model.sexp -> Model.sexp =
   | "c20" -> Model.run_c20
   | "c07" -> Model.run_c07
   | "c10" -> Model.run_c10
+  | "c11" -> Model.run_c11
   | _ -> failwith ("unknown property " ^ p)
